@@ -88,8 +88,32 @@ def static_fact(workdir):
     return out
 
 
+def frame_jobs(tier):
+    """sequential frame contracts the race-freedom argument rests on: images shared 'read-only after their first use' are
+    really only read.  (a) _pixman_image_validate leaves a clean image untouched and leaves every image clean (C14's validate.*
+    jobs, borrowed); (b) computing the composite region writes only the caller's region, never an image's clip region."""
+    import importlib
+    from vdriver import Job
+    js = []
+    try:
+        c14 = importlib.import_module("C14")
+        for j in c14.jobs(tier):
+            if j.name.startswith("validate."):
+                j.name = "C14:" + j.name
+                js.append(j)
+    except ImportError:
+        pass
+    js.append(Job("region.multi.frame", "C03/region_multi.c", defines={"VM_CHECKS": 2}, kind="proof", unwind=6, timeout=900, min_props=6,
+                  functions=["_pixman_compute_composite_region32", "clip_general_image", "clip_source_image"],
+                  assumptions=["pixman_region32_translate / pixman_region32_intersect are recording contract stubs (they write their first argument only: "
+                               "C07 / C05 frame obligations); request coordinates in [-2^27, 2^27]"],
+                  domain="every combination of multi-rectangle destination / source / mask / alpha-map clips and request geometry: the only region "
+                         "object written while the composite region is computed is the caller's; no image is modified"))
+    return js
+
+
 def jobs(tier):
-    return [PyJob("static.shared_writable_state", static_fact, kind="proof", min_props=20,
+    return frame_jobs(tier) + [PyJob("static.shared_writable_state", static_fact, kind="proof", min_props=20,
                   functions=["(whole library: 33 translation units)"],
                   domain="every object with static storage duration in the 30 portable + 3 x86 SIMD translation units; every direct assignment to it in the goto program",
                   assumptions=["writes through pointers to static objects are not tracked by this scan (address-taken sites are listed in evidence)",
